@@ -9,6 +9,7 @@
 import CC.Properties.C07
 import CC.Properties.C01
 import CC.Proofs.GQField
+import CC.Gen.Solution
 namespace CC
 open Gen
 
@@ -171,7 +172,12 @@ other sources short / open), valid as a network and without self-loop branches. 
 `transform_circuit` yields a network `N`, and for **every** vector `x` that solves the matrix
 equation the code builds for `N` (whatever `numpy.linalg.solve` returns), the potentials,
 voltages and currents the accessors report satisfy Kirchhoff's laws and every element law
-*of `S`*.  (By `C01_unique` they are then the only such values when `S` is well-posed.) -/
+*of `S`*.
+What this theorem does **not** state: that such an `x` exists, or that it is unique — existence
+(`det ≠ 0` for a well-posed network) is open in C01 (`C01_solvable_statement`), uniqueness of the
+reported values for a well-posed `S` is `CC.C01_unique` / `C01_matrix_unique`, not re-derived
+here; the check decides well-posedness per instance with the exact spec tableau.  Hypotheses
+carried: `S` passes `Network`'s checks (`S.check = ok`) and has no self-loop branch (as C01). -/
 theorem C02_exact (trig : Trig) (harm : Harm) (h0 : TrigZero trig)
     (cs : List Component) (C : Circuit) (w wres : Rat) (hne : cs ≠ [])
     (hC : Circuit.mk? cs = .ok C) (hex : ExactList cs)
@@ -206,8 +212,35 @@ end Exact
 
 /-! ## RMS, DC, gate boundary -/
 
+/-- complex divided by a real, the model's `GQ.divR`, is division by the embedded real in the field -/
+theorem divR_eq_div (v : GQ) (r : Rat) : GQ.divR v r = v / GQ.ofRat r := by
+  by_cases hr : r = 0
+  · subst hr
+    apply GQ.ext' <;> simp [GQ.divR, GQ.ofRat, GQ.div_def, GQ.mul_def, GQ.inv_def, GQ.normSq]
+  · apply GQ.ext' <;> simp [GQ.divR, GQ.ofRat, GQ.div_def, GQ.mul_def, GQ.inv_def, GQ.normSq] <;> field_simp
+
+/-- **link to the translator.**  The hand-written wrapper `cxGet` (CC/Model/Circuit.lean) computes
+what the *generated* `Gen.Sol.cx_get_voltage / _current / _potential` (harness/extract_solution.py,
+the three bodies are the same expression of their own quantity) compute at `K = GQ`, `r2` embedded. -/
+theorem C02_wrappers_generated (peak : Bool) (r2 : Rat) (N : Net String GQ) (x : List GQ) (q : Quantity) (id : String) :
+    cxGet peak r2 N x q id
+      = (N.quantity x q id).map (fun v => Gen.Sol.cx_get_voltage GQ.conj (GQ.ofRat r2) peak v v v) ∧
+    (∀ v i phi : GQ, Gen.Sol.cx_get_current GQ.conj (GQ.ofRat r2) peak v i phi
+        = Gen.Sol.cx_get_voltage GQ.conj (GQ.ofRat r2) peak i i i ∧
+      Gen.Sol.cx_get_potential GQ.conj (GQ.ofRat r2) peak v i phi
+        = Gen.Sol.cx_get_voltage GQ.conj (GQ.ofRat r2) peak phi phi phi) := by
+  constructor
+  · unfold cxGet
+    cases N.quantity x q id <;> cases peak <;>
+      simp [bind, Except.bind, pure, Except.pure, Except.map, Gen.Sol.cx_get_voltage, divR_eq_div]
+  · intro v i phi
+    cases peak <;> simp [Gen.Sol.cx_get_current, Gen.Sol.cx_get_potential, Gen.Sol.cx_get_voltage]
+
 /-- **C02 (rms).**  Every RMS potential, voltage and current is the peak phasor divided by
-`√2` (whatever number the caller's `np.sqrt(2)` is). -/
+`√2` (whatever number the caller's `np.sqrt(2)` is).  *By definition* of the hand-written wrapper
+`cxGet`, which is tied to `ComplexSolution.get_*` by the `cc_solution` correspondence and to the
+generated formulas by `C02_wrappers_generated`; the statement about the generated formulas
+themselves is `CC.C05_gen_rms`. -/
 theorem C02_rms (r2 : Rat) (N : Net String GQ) (x : List GQ) (q : Quantity) (id : String) :
     cxGet false r2 N x q id = (cxGet true r2 N x q id).map (fun v => GQ.divR v r2) := by
   unfold cxGet
@@ -232,7 +265,12 @@ def cxNet (trig : Trig) (harm : Harm) (C : Circuit) (w : Rat) : Except Err (Net 
 
 /-- **C02 (dc).**  The DC analysis solves the very network of the complex analysis at `w = 0`
 and reports the real parts of its peak values; in that network an inductor is a short and a
-capacitor an open circuit (`C07_limits_dc`). -/
+capacitor an open circuit (`C07_limits_dc`).
+Conjunct 1 is `rfl` between the two definitions `dcNet` / `cxNet` above, which only transcribe
+`transform(self.circuit, w=[0])` and `transform(self.circuit, w=[self.w])` of solution.py:37/59
+(tied by the `cc_transform` correspondence at the default resolution, not by a translator);
+conjunct 2 holds *by definition* of the hand-written `dcGet` / `cxGet` (the generated
+`.real` formulas are `CC.C05_gen_dc_real`). -/
 theorem C02_dc (trig : Trig) (harm : Harm) (C : Circuit) (r2 : Rat) (N : Net String GQ) (x : List GQ)
     (q : Quantity) (id : String) :
     dcNet trig harm C = cxNet trig harm C 0 ∧
